@@ -99,9 +99,9 @@ Definition g_headmat (W : list gdesc) (s : gst) : Z :=
   match g_loaded s with
   | None => -1
   | Some i => let d := nth i W dummy_desc in
-              if (Nat.eqb (g_pairs s) (d_pairs d) && Nat.eqb (g_parts s) (if d_marks d then d_parts d else 0)
-                  && Nat.eqb (g_nparams s) (length (filter (fun v => negb (memZ v (filter (fun v => negb (memZ v (d_noniso d))) (d_inv_add d)))) (d_verts d)) + d_tri_idx d)
-                  && d_finalized d)%bool
+              if negb (d_marks d) then -1        (* not finalized, or some domain without conductivity: nothing is assembled *)
+              else if (Nat.eqb (g_pairs s) (d_pairs d) && Nat.eqb (g_parts s) (d_parts d)
+                  && Nat.eqb (g_nparams s) (length (filter (fun v => negb (memZ v (filter (fun v => negb (memZ v (d_noniso d))) (d_inv_add d)))) (d_verts d)) + d_tri_idx d))%bool
               then d_headmat d else -7
   end.
 
